@@ -60,6 +60,7 @@ SPECS = [
     ("AUTO_POOL_ID_PREFIX", "repo", PM + "manager/commands.rs", r'pub const AUTO_POOL_ID_PREFIX: &str = "([^"]*)";', str, "str"),
     ("SINGLE_SIDE_REPLY_ID", "repo", PM + "contract.rs", r"pub const SINGLE_SIDE_LIQUIDITY_PROVISION_REPLY_ID: u64 = " + INT + ";", int, "nat"),
     ("PM_QUERY_MAX_LIMIT", "repo", PM + "queries.rs", r"pub\(crate\) const MAX_LIMIT: u32 = " + INT + ";", int, "nat"),
+    ("PM_QUERY_DEFAULT_LIMIT", "repo", PM + "queries.rs", r"const DEFAULT_LIMIT: u32 = " + INT + ";", int, "nat"),
     ("STABLE_D_THRESHOLD_IS_ONE_TOKEN", "repo", PM + "helpers.rs", r"let precision_threshold = (Decimal256::one\(\));", lambda s: 1, "nat"),
     # ---- farm manager
     ("SECONDS_IN_DAY", "repo", FM + "position/helpers.rs", r"const SECONDS_IN_DAY: u64 = " + INT + ";", int, "nat"),
